@@ -228,6 +228,7 @@ def run_bloch(binary, source, args=(), env=None, trace=False, state=None, timeou
     """Write `source` into a private directory, run the CLI on it, return (Result, events, qasm, dir)."""
     d = scratch_dir("run")
     path = os.path.join(d, fname)
+    os.makedirs(os.path.dirname(path), exist_ok=True)
     with open(path, "w", newline="") as f:
         f.write(source)
     for name, content in (extra_files or {}).items():
